@@ -85,7 +85,8 @@ def h_stamp(cfg):
         from symx import assume, ne
         for (p, a, g) in r.arrivals:
             for (_, D) in r.departs:
-                assume(ne(a, D))
+                if not cfg.get('ties_at_departures'):
+                    assume(ne(a, D))
     info = {}
     for idx, (p, a, g) in enumerate(r.arrivals):
         info[id(p)] = [a, g, None]
@@ -104,7 +105,12 @@ def h_stamp(cfg):
             arrived = True if g_q <= g_p else lt(a_q, S_p)
             waiting = And(arrived, gt(S_q, S_p))
             # smallest stamp first; the earlier arrival on equal stamps (same instant and same stamp: free)
-            ok = Or(lt(F_p, F_q), And(eq(F_p, F_q), le(a_p, a_q)))
+            if cfg.get('float_inexact'):
+                # stamps that are not dyadic rationals are rounded by the code's float arithmetic: differences below 1e-9 are
+                # not resolvable, such near-ties are left free (the dyadic jobs keep the exact rule, ties by arrival included)
+                ok = le(F_p, F_q + Fraction(1, 10 ** 9))
+            else:
+                ok = Or(lt(F_p, F_q), And(eq(F_p, F_q), le(a_p, a_q)))
             check('c14.stamp-order', Implies(waiting, ok),
                   'packet %d started while packet %d with a smaller stamp was waiting' % (p.packet_id, q.packet_id))
             nob += 1
@@ -180,6 +186,18 @@ def jobs(tier, seed):
         js.append({'harness': 'stamp', 'weight': 80, 'opts': {'max_paths': 6000},
                    'cfg': {'kind': kind, 'rate': 8, 'table': t, 'flows': [1, 1, 0, 1, 1, 1, 0, 1, 1, 1, 0, 1, 1], 'sorts': 'int',
                            'burst': [0] + [1] * 12, 'smax': 2, 'static': kind == 'WFQ'}})
+    # arrivals at the very instant of a transmission end, before and after the delivery (the scheduler may have just emptied)
+    for kind, t in (('WFQ', {0: 1, 1: 1}), ('WFQ', {0: 2, 1: 1}), ('VC', {0: 1, 1: 2})):
+        js.append({'harness': 'stamp', 'weight': 30,
+                   'cfg': {'kind': kind, 'rate': 8, 'table': t, 'flows': [0, 1, 0], 'sorts': 'int', 'ties_at_departures': True}})
+        js.append({'harness': 'stamp', 'weight': 60,
+                   'cfg': {'kind': kind, 'rate': 8, 'table': t, 'flows': [0, 1, 1, 0], 'sorts': 'int', 'ties_at_departures': True,
+                           'split_gap': [1], 'burst': [0, 0, 1, 0], 'smax': 3}})
+    # three classes finish a busy period with unequal stamps; a new one starts at the very instant the last packet has left
+    js.append({'harness': 'stamp', 'weight': 300, 'opts': {'max_paths': 30000},
+               'cfg': {'kind': 'WFQ', 'rate': 8, 'table': {0: 2, 1: 3, 2: 1}, 'flows': [2, 0, 1, 1, 2, 1], 'sorts': 'int',
+                       'ties_at_departures': True, 'split_gap': [3], 'burst': [0, 0, 0, 0, 1, 0], 'smax': 2, 'float_inexact': True,
+                       'sizes': {'0': 4, '1': 4, '2': 1}}})
     # equal stamps, different arrival instants, creation times in the opposite order
     for kind, t in (('VC', {0: 2, 1: 1}), ('VC', {0: 1, 1: 1}), ('WFQ', {0: 1, 1: 1})):
         js.append({'harness': 'stamp', 'weight': 10,
